@@ -1,9 +1,11 @@
 """C01 - multipass assembly ends at a fixpoint with every reference resolved."""
 import os
 import re
+import time
 
 from .. import common
 from . import c01_term
+from . import c01_ext
 
 PASS_CAP = 40
 PASSES_RE = re.compile(rb"^\s*(\d+) pass(?:es)?\s*$", re.M)
@@ -606,15 +608,27 @@ def run(args):
         distinct |= tp["distinct"]
         dist["equ_termination"] = tp["dist"]
         samples += tp["samples"]
-    total = nB + nC + dist["corpus_extra_pass"] + tp["evaluations"]
+        # ---- PHASE blocks, near branches, sections with FORWARD/PUBLIC/GLOBAL (vlib/props/c01_ext.py, driver mode c01x)
+        t_xp = time.time()
+        xp = c01_ext.run_part(args, bdir, wd)
+        spec_fail += xp["spec_fail"]
+        corr_fail += xp["corr_fail"]
+        proof_problems += xp["problems"]
+        distinct |= xp["distinct"]
+        dist["phase_near_sections"] = xp["dist"]
+        dist["phase_near_sections_wall_s"] = round(time.time() - t_xp, 2)
+        samples += xp["samples"]
+    total = nB + nC + dist["corpus_extra_pass"] + tp["evaluations"] + xp["evaluations"]
     res.coverage = common.proof_coverage(audit, "C01", [
         "hook H1 in as.c (pass cap, forced extra pass) - guarded by ASL_VERIF",
         "correspondence: real asl vs Model.Pass on 6502 (direct/absolute choice) and 68000 (padding) programs",
         "resolution oracle: marker bytes + per-target mini decoders for lda/jmp/bra/data words (python harness)",
         "translate/tables.py gen_passconsts (MaxSymPass / first PassNo after AsmDefInit, dumper linked with the assembler's objects)",
-        "correspondence: real asl vs Model.Pass2 (EQU expressions, pass count, reject in pass 2) on 6502 and 68000; listing parser for line addresses and symbol values (python harness)"])
+        "correspondence: real asl vs Model.Pass2 (EQU expressions, pass count, reject in pass 2) on 6502 and 68000; listing parser for line addresses and symbol values (python harness)",
+        "correspondence: real asl vs Model.PassPhase (PHASE/DEPHASE, BRA/Bcc/BSR size selection incl. the label behind a BSR) on 6502 and 68000, vs Model.Sym (sections, FORWARD/PUBLIC/GLOBAL) on 6502/Z80",
+        "resolution oracle for PHASE blocks / near branches / sections: marker bytes + per-target mini decoders (python harness); the binding of every reference in a section tree is computed by Spec.Scope.judge (driver mode c01x S)"])
     res.coverage.update(evaluations=total, distinct_nontrivial=len(distinct),
-                        rule="(B) random label/reference/filler programs in the model's statement language rendered for 6502 and 68000, filler sizes around the 255/256 threshold; (C) programs over 6502/6809/68HC11/68000/8086 with marker bytes after each label and before each reference, distances around 127/128/255/256, each assembled normally and with one forced extra pass; (corpus) golden sources with a forced extra pass; (EQU) forward/backward/reordered EQU chains of length 0..12 with offsets and the PC symbol, mixed label/EQU/use programs, zero-page threshold shapes and operands falling with a rising label, on 6502 and 68000, compared in status, pass count, end address, operands, symbol values and checked against Spec.Pass2; distinct by program text, non-trivial = at least one EQU over another symbol",
+                        rule="(B) random label/reference/filler programs in the model's statement language rendered for 6502 and 68000, filler sizes around the 255/256 threshold; (C) programs over 6502/6809/68HC11/68000/8086 with marker bytes after each label and before each reference, distances around 127/128/255/256, each assembled normally and with one forced extra pass; (corpus) golden sources with a forced extra pass; (EQU) forward/backward/reordered EQU chains of length 0..12 with offsets and the PC symbol, mixed label/EQU/use programs, zero-page threshold shapes and operands falling with a rising label, on 6502 and 68000, compared in status, pass count, end address, operands, symbol values and checked against Spec.Pass2; distinct by program text, non-trivial = at least one EQU over another symbol; (PHASE/near/sections, see vlib/props/c01_ext.py) abstract programs with nested PHASE blocks and BRA/Bcc/BSR at distances 0,2,.. compared with Model.PassPhase, marker programs over six targets with PHASE blocks and references next to their labels, every near form x gap x direction x plain/PHASE enumerated, section trees with FORWARD/PUBLIC/GLOBAL and same-named symbols on several levels judged by Spec.Scope (binding) and compared with Model.Sym, each with a forced extra pass",
                         samples=samples, distribution=dist)
     res.assumptions = ["termination is decided by search under a cap of %d passes for value-dependent sizes (theorems: C01_term_const_sizes / C01_term_backward prove it for value-independent sizes and for programs without forward reference; C01_oscillation_example disproves it in general; C01_fixpoint_at_exit(_equ) is conditional on loop exit)" % PASS_CAP,
                        "EQU part: operands are kept inside the range of their data word in every pass (range errors are outside Model.Pass2), each symbol is defined once, SET is not modelled",
@@ -631,6 +645,10 @@ def replay(args):
         with common.Workdir("c01r") as wd:
             f = os.path.join(wd, "r.asm")
             open(f, "w").write(d["source"])
-            rc, so, se = common.run_tool(bdir, "asl", [f], wd, env={"ASL_VERIF_MAX_PASSES": str(PASS_CAP)}, timeout=60)
-            print("asl rc =", rc, so.decode(errors="replace")[-400:])
+            flags = str(d.get("flags") or "").split()
+            rc, so, se = common.run_tool(bdir, "asl", flags + [f], wd, env={"ASL_VERIF_MAX_PASSES": str(PASS_CAP)}, timeout=60)
+            print("asl", " ".join(flags), "rc =", rc, so.decode(errors="replace")[-400:])
+            for key, mode in (("model_request", "c01x"), ("spec_request", "c01x")):
+                if key in d and str(d[key])[:2] in ("P ", "S "):
+                    print(key, "->", common.driver(mode, [d[key]])[0][:600])
     return 0
